@@ -1227,14 +1227,15 @@ pub fn generate(seed: u64, cfg: &GenCfg) -> Scenario {
     }
     let mut nofile_limit = 0u32;
     if !cfg.small && !many && rng.chance(1, 30) {
-        // dozens of small inputs under a low descriptor limit
+        // about a hundred small inputs under a descriptor limit of 64: an implementation may
+        // keep a bounded pool of inputs open, but not all of them
         files.clear();
-        for i in 0..rng.range(20, 50) {
+        for i in 0..rng.range(80, 110) {
             let n = rng.below(4);
             let lines: Vec<String> = (0..n).map(|_| gen_line(&mut rng, &patterns, false, None)).collect();
             files.push((format!("f{i:03}.txt"), lines));
         }
-        nofile_limit = 12;
+        nofile_limit = 64;
     }
     let mut tall_stdin: Option<Vec<String>> = None;
     if !cfg.small && !many && nofile_limit == 0 && rng.chance(1, 250) {
